@@ -158,6 +158,13 @@ def run(ctx, rep) -> None:
         rep.check(ok_begin, "C13.R2", f"{qual}: scope opened before the body", "begin_store_transaction(conn, url) before try/yield", f.file, begin[0].lineno if begin else fn.lineno, disc=f"{qual}:begin")
         rep.check(ok_commit, "C13.R2", f"{qual}: bus publication only after the database commit", "conn.commit() then commit_store_transaction(), never on the failure path", f.file, commit_sc[0].lineno if commit_sc else fn.lineno, disc=f"{qual}:commit")
         rep.check(ok_abort and h_ok, "C13.R2", f"{qual}: failure path rolls back, aborts the scope and re-raises", "except: rollback(); abort_store_transaction(); raise", f.file, tr.handlers[0].lineno if tr.handlers else fn.lineno, disc=f"{qual}:abort")
+        # the failure path must be taken for EVERY way the body can be left abnormally: KeyboardInterrupt / SystemExit are not
+        # Exceptions - with `except Exception` they leave the connection inside the abandoned transaction and the scope bound,
+        # and the next commit on the thread makes the half transaction durable
+        broad = any(h.type is None or norm(h.type) == "BaseException" for h in tr.handlers if any(".rollback()" in norm(s_) for s_ in h.body)) or any(".rollback()" in norm(s_) for s_ in tr.finalbody)
+        rep.check(broad, "C13.R2", f"{qual}: the rollback path also covers BaseException", "except BaseException (or bare except / finally) around yield + commit" if broad else
+                  "the rollback / abort handler catches `Exception` only: an interrupt inside the block leaves the transaction open and the event scope bound - the next commit on this thread makes the abandoned writes and events durable",
+                  f.file, tr.handlers[0].lineno if tr.handlers else fn.lineno, disc=f"{qual}:baseexception")
 
     # ---- R3 -------------------------------------------------------------------------------------
     ts = prog.module("stabilize.events.txn_scope")
